@@ -24,12 +24,10 @@ import (
 	"errors"
 	"time"
 
-	"entgo.io/ent/dialect/sql"
 	"github.com/google/uuid"
 
 	"go.6river.tech/mmmbbb/ent"
 	"go.6river.tech/mmmbbb/ent/delivery"
-	"go.6river.tech/mmmbbb/ent/message"
 	"go.6river.tech/mmmbbb/ent/snapshot"
 	"go.6river.tech/mmmbbb/ent/subscription"
 )
@@ -136,29 +134,20 @@ func (a *CreateSnapshot) Execute(ctx context.Context, tx *ent.Tx) error {
 	} else {
 		// complex path
 		create = create.SetAckedMessagesBefore(oldestUnAcked.PublishedAt)
-		// acked messages might have a completed delivery, or they might have no
-		// delivery at all, so we left join the topic messages to find both.
+		// acked messages are those with a completed delivery on this
+		// subscription at or after the threshold. go by the deliveries, not the
+		// topic's messages: a delivery that was dead-lettered into this
+		// subscription belongs to a message of another topic and is stamped with
+		// the time it was forwarded.
 		// TODO: this may return a LOT of data, paginate it
-		ackedIDs, err := tx.Message.Query().
+		var ackedIDs []uuid.UUID
+		err := sub.QueryDeliveries().
 			Where(
-				message.TopicID(sub.TopicID),
-				message.PublishedAtGTE(oldestUnAcked.PublishedAt),
-				func(s *sql.Selector) {
-					t := sql.Table(delivery.Table).As("d")
-					s.LeftJoin(t).On(s.C(message.FieldID), t.C(delivery.FieldMessageID))
-					s.Where(sql.And(
-						// only care about deliveries for the same sub
-						sql.EQ(t.C(delivery.FieldSubscriptionID), sub.ID),
-						sql.Or(
-							// no delivery
-							sql.IsNull(t.C(delivery.FieldID)),
-							// completed delivery
-							sql.NotNull(t.C(delivery.FieldCompletedAt)),
-						),
-					))
-				},
+				delivery.PublishedAtGTE(oldestUnAcked.PublishedAt),
+				delivery.CompletedAtNotNil(),
 			).
-			IDs(ctx)
+			Select(delivery.FieldMessageID).
+			Scan(ctx, &ackedIDs)
 		if err != nil {
 			return err
 		}
